@@ -4,6 +4,7 @@
 (* token sequence as one JSON line; harness/c07.py builds the real trees / lookups and compares.        *)
 EXTENDS Namespaces, Json
 ReqOut(r) == [w |-> Dirs[r.w], k1 |-> r.k1, s1 |-> r.s1, s2 |-> r.s2, k2 |-> r.k2,
+              base |-> r.base, bdir |-> (IF r.base = 0 THEN <<>> ELSE Dirs[r.base]), entry |-> r.entry,
               u1 |-> IF Spellings[r.s1].empty THEN [abs |-> FALSE, segs |-> <<>>, empty |-> TRUE]
                      ELSE [abs |-> Spellings[r.s1].abs, segs |-> Spellings[r.s1].pre, empty |-> FALSE],
               u2 |-> IF r.s2 = 0 THEN [abs |-> FALSE, segs |-> <<>>, empty |-> TRUE]
